@@ -4,6 +4,7 @@ package main
 // sideways, feeding subscriptions are exclusively owned.
 
 import (
+	"go/types"
 	"fmt"
 	"strings"
 
@@ -287,8 +288,23 @@ func checkOutchClosed(c *Ctx) {
 				if bi, ok := cc.Value.(*ssa.Builtin); ok && bi.Name() == "close" {
 					p := valPath(cc.Args[0])
 					if strings.HasSuffix(p, ".outch") {
-						key := typeNameOf(f.Signature.Recv().Type()) + ".outch"
-						closes[key] = append(closes[key], fnName(f)+"["+kind+"]")
+						var recvT types.Type
+						if f.Signature.Recv() != nil {
+							recvT = f.Signature.Recv().Type()
+						} else if len(f.Params) > 0 {
+							recvT = f.Params[0].Type()
+						} else {
+							continue
+						}
+						tn := typeNameOf(recvT)
+						key := tn + ".outch"
+						where := fnName(f)
+						// a private helper that only runs inside the owner's run function (its shutdown
+						// tail moved into `shutdown()`) closes on the run function's behalf
+						if where != tn+".run" && kind == "call" && c.P.ownedBy(f, "", tn+".run") {
+							where = tn + ".run"
+						}
+						closes[key] = append(closes[key], where+"["+kind+"]")
 					}
 				}
 			}
